@@ -49,26 +49,32 @@ let n_of_decimal (s : string) : n =
   end
 let num s = n_of_decimal s
 
-let run_case (toks : string list) : n list option =
+(* (what the model of the code does, what the specification demands); they differ only where a
+   known finding is recorded (C14: copyright polarity) *)
+let same x = (x, x)
+let run_case (toks : string list) : n list option * n list option =
   match toks with
-  | ["PKT"; h] -> run_packet (bytes_of_tok h)
-  | ["P12"; h] -> run_packet_c12 (bytes_of_tok h)
-  | ["AF"; h] -> run_af (bytes_of_tok h)
-  | ["TSB"; h] -> run_tsb (bytes_of_tok h)
-  | ["TSU"; v] -> run_tsu (num v)
-  | ["TSW"; a; b] -> run_tsw (num a) (num b)
-  | ["CRP"; a; b] -> run_crp (num a) (num b)
-  | ["CRS"; h] -> run_crs (bytes_of_tok h)
+  | ["PKT"; h] -> same (run_packet (bytes_of_tok h))
+  | ["P12"; h] -> same (run_packet_c12 (bytes_of_tok h))
+  | ["AF"; h] -> same (run_af (bytes_of_tok h))
+  | ["TSB"; h] -> same (run_tsb (bytes_of_tok h))
+  | ["TSU"; v] -> same (run_tsu (num v))
+  | ["TSW"; a; b] -> same (run_tsw (num a) (num b))
+  | ["CRP"; a; b] -> same (run_crp (num a) (num b))
+  | ["CRS"; h] -> same (run_crs (bytes_of_tok h))
+  | ["PES"; h] -> let b = bytes_of_tok h in (run_pes false b, run_pes true b)
+  | ["PPC"; h] -> let b = bytes_of_tok h in (run_ppc false b, run_ppc true b)
   | k :: _ -> failwith ("unknown case kind " ^ k)
   | [] -> failwith "empty case"
 
 let () =
-  let ic = open_in Sys.argv.(1) and oc = open_out Sys.argv.(2) in
+  let ic = open_in Sys.argv.(1) and oc = open_out Sys.argv.(2) and os = open_out Sys.argv.(3) in
   (try
      while true do
        let line = input_line ic in
        let toks = String.split_on_char ' ' line |> List.filter (fun s -> s <> "") in
-       print_obs oc (run_case toks)
+       let (m, sp) = run_case toks in
+       print_obs oc m; print_obs os sp
      done
    with End_of_file -> ());
-  close_out oc
+  close_out oc; close_out os
